@@ -173,3 +173,17 @@ Theorem c08_batch_conservation_no_full_wait : forall size ton ins w x,
   (1 <= size -> zlen (b_buf (bw_s w)) < size).
 Proof. exact batch_conservation_no_full_wait. Qed.
 Print Assumptions c08_batch_conservation_no_full_wait.
+
+Theorem c08_concurrency_models_bound : forall ops m,
+  Forall (fun o => match o with CSetLimit _ => False | _ => True end) ops ->
+  cm_ok m -> cm_ok (cm_run m ops).
+Proof. exact concurrency_models_bound. Qed.
+Print Assumptions c08_concurrency_models_bound.
+
+Theorem c08_acquire_respects_limit : forall m w m' r,
+  cm_step m (CAcquire w) = (m', r) ->
+  (r = 1 -> cm_active m' <= cm_limit m' /\ cm_active m < cm_active m') /\
+  (r <> 1 -> m' = m) /\
+  (1 <= w -> (snd (cm_step m (CHasCap w)) = 1 <-> r = 1)).
+Proof. exact acquire_respects_limit. Qed.
+Print Assumptions c08_acquire_respects_limit.
